@@ -209,6 +209,7 @@ class PlanSim:
         self.tainted = set()   # functions that inlined (at link) a callee carrying interpreter data
         self.iface_of = {}
         self.link_ok = True
+        self.assert_build = False   # assert-enabled library: even a repeated MIR_gen asserts func_item->data == NULL
 
     def link(self, names, iface):
         for n in names:
@@ -228,6 +229,8 @@ class PlanSim:
         """f is (maybe) generated now"""
         info = self.p.funcs[f]
         if gen[f] == YES:
+            if sure and self.assert_build and self.avoid_kf1 and icode[f] != NO:
+                bad.append(("kf1-assert", f))
             return
         if self.avoid_kf1 and (icode[f] != NO or f in self.tainted):
             bad.append(("kf1", f))
@@ -300,6 +303,7 @@ def make_plans(rng, prog, files, level, iface, late_iface, avoid_kf1, avoid_kf2,
     base_funcs = [f for m in base for f in m[2]]
     late_funcs = [f for m in late for f in m[2]]
     sim = PlanSim(prog, iface, avoid_kf1, avoid_kf2)
+    sim.assert_build = no_icode_before_late
     plan = [f"OPT {level}"] + [f"SCAN {files[m[0]]}" for m in base] + [f"LOADLINK {iface}", "SNAP s0"]
     sim.link(base_funcs, iface)
     inputs = []      # (id, func, n) executed somewhere
